@@ -560,7 +560,7 @@ def nontrivial(case):
 
 def gen_cases(ctx):
     rng = ctx.rng
-    per_op = ctx.scale(75, 800)
+    per_op = ctx.scale(150, 1600)
     cases = [c for c in CORPUS]
     for op in OPS:
         for _ in range(per_op):
